@@ -44,7 +44,13 @@ def main(tier, seed):
         for name, mode, h in axes[1:]:
             j = jobs[(b, name)]
             if j.status != "ok":
-                rep.job_problem(j)
+                if j.rc is not None and j.rc < 0:
+                    rep.violation({"prop": "C15", "kind": "process_killed_by_signal_on_axis_" + name,
+                                   "detail": "the %s process died with signal %d while executing %r; the same case list "
+                                             "completes in a fresh compiled process" % (name, -j.rc, j.stalled_case),
+                                   "cases_seed": seed * 1009 + b, "axis": name, "case": j.stalled_case})
+                else:
+                    rep.job_problem(j)
                 continue
             rep.count("history_steps", len(j.result["history"]))
             for hs in j.result["history"]:
@@ -82,7 +88,8 @@ def main(tier, seed):
     rep.need("comparisons.compiled_history", 100, "history axis")
     rep.need("history_steps", 100, "history steps")
     for hk in ("history.abandon", "history.suspend", "history.optimize", "history.reuse_problem_object",
-               "history.register_propagator", "history.register_consistency_algorithm"):
+               "history.register_propagator", "history.register_consistency_algorithm", "history.use_registered_vh",
+               "history.use_registered_dh", "history.use_registered_calg"):
         rep.need(hk, 3, hk)
     rep.assumptions = ["only differences visible in outputs or statistics are seen",
                        "int32 overflow differences between modes are excluded by the contract's magnitude bound"]
